@@ -468,21 +468,21 @@ where
     snap(Some(fin), fin, "end", rep);
 }
 
-fn run_try_with<'a, A, S, T: Elem>(scope: &mut BumpScope<'a, A, S>, spec: &MutSpec, rep: &mut MutReport)
+fn run_try_with_e<'a, A, S, T: Elem, E: Copy + PartialEq + 'static>(err: E, scope: &mut BumpScope<'a, A, S>, spec: &MutSpec, rep: &mut MutReport)
 where
     A: BaseAllocator<S::GuaranteedAllocated> + SlabKind,
     S: BumpAllocatorSettings + 'static,
 {
     rep.elem_size = size_of::<T>();
     rep.elem_align = align_of::<T>();
-    rep.slot_size = size_of::<Result<T, u8>>();
+    rep.slot_size = size_of::<Result<T, E>>();
     let end = spec.end;
     let try_ = spec.cap == 0;
     let r = catch_unwind(AssertUnwindSafe(|| {
-        let f = || -> Result<T, u8> {
+        let f = || -> Result<T, E> {
             match end {
                 MutEnd::Unwind => std::panic::resume_unwind(Box::new(CallbackPanic)),
-                MutEnd::Drop => Err(7),
+                MutEnd::Drop => Err(err),
                 _ => Ok(T::make(5)),
             }
         };
@@ -497,7 +497,7 @@ where
         Ok(match r {
             Ok(b) => Some(b.into_raw()),
             Err(e) => {
-                if e != 7 {
+                if e != err {
                     return Err("the error value of the closure was not handed back".to_string());
                 }
                 None
@@ -525,6 +525,20 @@ where
     }
     let fin = scope.stats();
     snap(Some(fin), fin, "end", rep);
+}
+
+/// `extra == Reserve(1)` selects an error type that is larger than every element type (the value then ends before
+/// the end of the `Result` slot)
+fn run_try_with<'a, A, S, T: Elem>(scope: &mut BumpScope<'a, A, S>, spec: &MutSpec, rep: &mut MutReport)
+where
+    A: BaseAllocator<S::GuaranteedAllocated> + SlabKind,
+    S: BumpAllocatorSettings + 'static,
+{
+    if matches!(spec.extra, MutExtra::Reserve(1)) {
+        run_try_with_e::<A, S, T, [u64; 6]>([7; 6], scope, spec, rep)
+    } else {
+        run_try_with_e::<A, S, T, u8>(7, scope, spec, rep)
+    }
 }
 
 /// compile-time switch: only configurations whose allocator kind selects `Enabled` instantiate the drivers
